@@ -128,7 +128,10 @@ func (r *c20Ref) checkSchedule(batch []*TxQueueMeta, limit int) {
 // VerifC20Script runs n symbolic operations.
 func VerifC20Script() {
 	n := symx.Cfg("n", 3)
-	capacity := 1 + symx.Choose("cap", symx.Cfg("maxcap", 3))
+	capacity := symx.Cfg("cap", 0) // cfg cap fixes the capacity; otherwise symbolic in 1..maxcap
+	if capacity == 0 {
+		capacity = 1 + symx.Choose("cap", symx.Cfg("maxcap", 3))
+	}
 	q := newMainQueue(capacity)
 	r := &c20Ref{capacity: capacity, inPass: map[int]bool{}}
 	for i := 0; i < n; i++ {
@@ -145,7 +148,18 @@ func VerifC20Script() {
 		}
 		switch op {
 		case 0: // Add
-			sender := symx.Choose(symx.N("sender", i), 2)
+			// cfg senders: decimal digits, one per step (1 = sender a, 2 = sender b, 0 / absent = symbolic)
+			sender := -1
+			if sd := symx.Cfg("senders", -1); sd >= 0 {
+				d := sd
+				for k := n - 1; k > i; k-- {
+					d /= 10
+				}
+				sender = d%10 - 1
+			}
+			if sender < 0 || sender > 1 {
+				sender = symx.Choose(symx.N("sender", i), 2)
+			}
 			seq := symx.Uint64(symx.N("seq", i))
 			prio := symx.Uint64(symx.N("prio", i))
 			stateSeq := symx.Uint64(symx.N("stateseq", i))
